@@ -23,15 +23,15 @@ End tvalue_ind2.
 
 Section tsel_ind2.
   Variable P : tsel -> Prop.
-  Hypothesis HField : forall fd args sub, Forall P sub -> P (TField fd args sub).
-  Hypothesis HInline : forall sub, Forall P sub -> P (TInline sub).
+  Hypothesis HField : forall fd args dirs sub, Forall P sub -> P (TField fd args dirs sub).
+  Hypothesis HInline : forall ds sub, Forall P sub -> P (TInline ds sub).
   Fixpoint tsel_ind2 (s : tsel) : P s :=
     match s with
-    | TField fd args sub =>
-        HField fd args sub ((fix go (l : list tsel) : Forall P l :=
+    | TField fd args dirs sub =>
+        HField fd args dirs sub ((fix go (l : list tsel) : Forall P l :=
                                match l with [] => Forall_nil _ | x :: t => Forall_cons x (tsel_ind2 x) (go t) end) sub)
-    | TInline sub =>
-        HInline sub ((fix go (l : list tsel) : Forall P l :=
+    | TInline ds sub =>
+        HInline ds sub ((fix go (l : list tsel) : Forall P l :=
                         match l with [] => Forall_nil _ | x :: t => Forall_cons x (tsel_ind2 x) (go t) end) sub)
     end.
 End tsel_ind2.
@@ -116,6 +116,42 @@ Proof.
     rewrite forallb_forall in Hwt. apply kid_iff; [exact Hn | eapply names_ok_fs; eauto | apply (Hwt (k', x) Hin)].
 Qed.
 
+Lemma dir_iff d n t : wt_dir d = true -> (In (n, t) (walk_dir d) <-> In (n, t) (dir_positions d)).
+Proof.
+  destruct d as [[ads|] dargs]; unfold wt_dir, walk_dir, dir_positions; cbn [fst snd]; intros Hwt.
+  - apply flat_map_iff_pointwise. rewrite Forall_forall. rewrite forallb_forall in Hwt. intros [an v] Hin.
+    specialize (Hwt _ Hin). cbn [fst snd] in Hwt |- *. unfold arg_positions. cbn [fst snd].
+    destruct (lookup an ads) as [[tstr tname]|]; [|discriminate].
+    destruct v as [vn ve vd| |d ks]; [tauto|cbn; tauto|discriminate].
+  - destruct dargs; [cbn; tauto|discriminate].
+Qed.
+Lemma dir_var_has_position d n : wt_dir d = true -> In n (dir_vars d) -> exists t, In (n, t) (dir_positions d).
+Proof.
+  destruct d as [[ads|] dargs]; unfold wt_dir, dir_vars, dir_positions; cbn [fst snd]; intros Hwt Hin.
+  - apply in_flat_map in Hin as ([an v] & Hi & Hv). cbn [snd] in Hv. rewrite forallb_forall in Hwt.
+    specialize (Hwt _ Hi). cbn [fst snd] in Hwt. destruct (lookup an ads) as [[tstr tname]|] eqn:L; [|discriminate].
+    destruct v as [vn ve vd| |d ks]; [|destruct Hv|discriminate].
+    cbn [kid_vars In] in Hv. destruct Hv as [<-|[]]. exists tstr. apply in_flat_map. exists (an, TVar vn ve vd).
+    split; [exact Hi|]. unfold arg_positions. cbn [fst snd]. rewrite L. left. reflexivity.
+  - destruct dargs; [destruct Hin|discriminate].
+Qed.
+
+Lemma dirs_iff ds n t : forallb wt_dir ds = true -> (In (n, t) (flat_map walk_dir ds) <-> In (n, t) (flat_map dir_positions ds)).
+Proof.
+  intros Hd. apply flat_map_iff_pointwise. rewrite Forall_forall. rewrite forallb_forall in Hd. intros d Hin. apply dir_iff, (Hd d Hin).
+Qed.
+Lemma dirs_var_has_position ds n : forallb wt_dir ds = true -> In n (flat_map dir_vars ds) -> exists t, In (n, t) (flat_map dir_positions ds).
+Proof.
+  intros Hd Hin. apply in_flat_map in Hin as (d & Hi & Hv). rewrite forallb_forall in Hd.
+  destruct (dir_var_has_position d n (Hd d Hi) Hv) as [t Ht]. exists t. apply in_flat_map. exists d. split; assumption.
+Qed.
+Lemma tfrag_go sub :
+  (fix go (l : list tsel) := match l with [] => [] | x :: t => tfrag_dirs x ++ go t end) sub = flat_map tfrag_dirs sub.
+Proof. induction sub as [|x t IH]; cbn [flat_map]; [reflexivity|]. rewrite IH. reflexivity. Qed.
+Lemma forallb_flat_map {A B} (p : B -> bool) (f : A -> list B) l :
+  forallb p (flat_map f l) = forallb (fun x => forallb p (f x)) l.
+Proof. induction l as [|x t IH]; cbn [flat_map forallb]; [reflexivity|]. rewrite forallb_app, IH. reflexivity. Qed.
+
 Lemma sel_walk_go ts sub :
   (fix go (l : list tsel) := match l with [] => [] | x :: t => walk_sel ts x ++ go t end) sub = flat_map (walk_sel ts) sub.
 Proof. induction sub as [|x t IH]; cbn [flat_map]; [reflexivity|]. rewrite IH. reflexivity. Qed.
@@ -126,12 +162,27 @@ Lemma sel_wt_go ts sub :
   (fix go (l : list tsel) := match l with [] => true | x :: t => wt_sel ts x && go t end) sub = forallb (wt_sel ts) sub.
 Proof. induction sub as [|x t IH]; cbn [forallb]; [reflexivity|]. rewrite IH. reflexivity. Qed.
 
+(* the directives of the fragments of a level are well formed when its selections are *)
+Lemma wt_frag_dirs ts s : wt_sel ts s = true -> forallb wt_dir (tfrag_dirs s) = true.
+Proof.
+  induction s as [fd args dirs sub IH|ds sub IH] using tsel_ind2; cbn [wt_sel tfrag_dirs]; [reflexivity|].
+  rewrite sel_wt_go, tfrag_go. intros H. apply andb_true_iff in H as [Hd Hs]. rewrite forallb_app, Hd. cbn [andb].
+  rewrite forallb_flat_map. apply forallb_forall. intros x Hx. rewrite Forall_forall in IH. rewrite forallb_forall in Hs.
+  apply (IH x Hx), (Hs x Hx).
+Qed.
+Lemma wt_level_dirs ts ss : forallb (wt_sel ts) ss = true -> forallb wt_dir (flat_map tfrag_dirs ss) = true.
+Proof.
+  intros H. rewrite forallb_flat_map. apply forallb_forall. intros x Hx. rewrite forallb_forall in H. apply (wt_frag_dirs ts), (H x Hx).
+Qed.
+
 Lemma sel_iff ts (Hn : names_ok ts = true) s n t :
   wt_sel ts s = true -> (In (n, t) (walk_sel ts s) <-> In (n, t) (sel_positions s)).
 Proof.
-  induction s as [fd args sub IH|sub IH] using tsel_ind2; cbn [walk_sel sel_positions wt_sel];
+  induction s as [fd args dirs sub IH|ds sub IH] using tsel_ind2; cbn [walk_sel sel_positions wt_sel];
     rewrite sel_walk_go, sel_pos_go, sel_wt_go; intros Hwt.
-  - apply andb_true_iff in Hwt as [Ha Hs]. rewrite !in_app_iff.
+  - apply andb_true_iff in Hwt as [Hwt Hs]. apply andb_true_iff in Hwt as [Hd Ha]. rewrite !in_app_iff.
+    pose proof (dirs_iff dirs n t Hd) as Hdir.
+    pose proof (dirs_iff (flat_map tfrag_dirs sub) n t (wt_level_dirs ts sub Hs)) as Hfr.
     assert (Hsub : In (n, t) (flat_map (walk_sel ts) sub) <-> In (n, t) (flat_map sel_positions sub)).
     { apply flat_map_iff_pointwise. rewrite Forall_forall in IH |- *. rewrite forallb_forall in Hs.
       intros x Hin. apply (IH x Hin), (Hs x Hin). }
@@ -141,7 +192,8 @@ Proof.
         intros a Hin. apply arg_iff; [exact Hn|apply (Ha a Hin)]. }
       tauto.
     + destruct args; [|discriminate]. cbn [flat_map]. tauto.
-  - apply flat_map_iff_pointwise. rewrite Forall_forall in IH |- *. rewrite forallb_forall in Hwt.
+  - apply andb_true_iff in Hwt as [_ Hwt].
+    apply flat_map_iff_pointwise. rewrite Forall_forall in IH |- *. rewrite forallb_forall in Hwt.
     intros x Hin. apply (IH x Hin), (Hwt x Hin).
 Qed.
 
@@ -149,9 +201,12 @@ Qed.
 Theorem walk_is_positions ts ss n t :
   wt ts ss = true -> (In (n, t) (walk ts ss) <-> In (n, t) (positions ss)).
 Proof.
-  unfold wt, walk, positions. intros H. apply andb_true_iff in H as [Hn Hs].
-  apply flat_map_iff_pointwise. rewrite Forall_forall. rewrite forallb_forall in Hs.
-  intros s Hin. apply sel_iff; [exact Hn|apply (Hs s Hin)].
+  unfold wt, walk, positions. intros H. apply andb_true_iff in H as [Hn Hs]. rewrite !in_app_iff.
+  pose proof (dirs_iff (flat_map tfrag_dirs ss) n t (wt_level_dirs ts ss Hs)) as Hfr.
+  assert (Hsel : In (n, t) (flat_map (walk_sel ts) ss) <-> In (n, t) (flat_map sel_positions ss)).
+  { apply flat_map_iff_pointwise. rewrite Forall_forall. rewrite forallb_forall in Hs.
+    intros s Hin. apply sel_iff; [exact Hn|apply (Hs s Hin)]. }
+  tauto.
 Qed.
 
 Lemma last_write_some n ws t : last_write n ws = Some t -> In (n, t) ws.
@@ -212,9 +267,11 @@ Qed.
 
 Lemma sel_var_has_position ts s n : wt_sel ts s = true -> In n (sel_vars s) -> exists t, In (n, t) (sel_positions s).
 Proof.
-  induction s as [fd args sub IH|sub IH] using tsel_ind2; cbn [sel_vars sel_positions wt_sel];
+  induction s as [fd args dirs sub IH|ds sub IH] using tsel_ind2; cbn [sel_vars sel_positions wt_sel];
     rewrite sel_vars_go, sel_pos_go, sel_wt_go; intros Hwt Hin.
-  - apply andb_true_iff in Hwt as [Ha Hs]. apply in_app_iff in Hin as [Hin|Hin].
+  - apply andb_true_iff in Hwt as [Hwt Hs]. apply andb_true_iff in Hwt as [Hd Ha]. apply in_app_iff in Hin as [Hin|Hin].
+    { destruct (dirs_var_has_position dirs n Hd Hin) as [t Ht]. exists t. apply in_app_iff. left. exact Ht. }
+    apply in_app_iff in Hin as [Hin|Hin].
     + apply in_flat_map in Hin as ([an v] & Hi & Hv). cbn [snd] in Hv.
       destruct fd as [ads|]; [|destruct args; [destruct Hi|discriminate]].
       rewrite forallb_forall in Ha. specialize (Ha _ Hi). unfold wt_arg in Ha. cbn [fst snd] in Ha.
@@ -228,30 +285,40 @@ Proof.
           rewrite kid_vars_kids in Hv. apply in_flat_map in Hv as ([k' x] & Hi' & Hx). cbn [snd] in Hx.
           rewrite forallb_forall in Ha. destruct (kid_var_has_position ts x fs k' n (Ha (k', x) Hi') Hx) as [t Ht].
           exists t. rewrite kid_positions_kids. apply in_flat_map. exists (k', x). split; assumption. }
-      exists t. apply in_app_iff. left. apply in_flat_map. exists (an, v). split; assumption.
-    + apply in_flat_map in Hin as (x & Hi & Hx). rewrite forallb_forall in Hs. rewrite Forall_forall in IH.
-      destruct (IH x Hi (Hs x Hi) Hx) as [t Ht]. exists t. apply in_app_iff. right. apply in_flat_map. exists x. split; assumption.
-  - apply in_flat_map in Hin as (x & Hi & Hx). rewrite forallb_forall in Hwt. rewrite Forall_forall in IH.
+      exists t. apply in_app_iff. right. apply in_app_iff. left. apply in_flat_map. exists (an, v). split; assumption.
+    + apply in_app_iff in Hin as [Hin|Hin].
+      * destruct (dirs_var_has_position _ n (wt_level_dirs ts sub Hs) Hin) as [t Ht]. exists t.
+        apply in_app_iff. right. apply in_app_iff. right. apply in_app_iff. left. exact Ht.
+      * apply in_flat_map in Hin as (x & Hi & Hx). rewrite forallb_forall in Hs. rewrite Forall_forall in IH.
+        destruct (IH x Hi (Hs x Hi) Hx) as [t Ht]. exists t. apply in_app_iff. right. apply in_app_iff. right. apply in_app_iff. right.
+        apply in_flat_map. exists x. split; assumption.
+  - apply andb_true_iff in Hwt as [_ Hwt].
+    apply in_flat_map in Hin as (x & Hi & Hx). rewrite forallb_forall in Hwt. rewrite Forall_forall in IH.
     destruct (IH x Hi (Hwt x Hi) Hx) as [t Ht]. exists t. apply in_flat_map. exists x. split; assumption.
 Qed.
 
 Theorem every_variable_occurrence_is_declared ts ss n :
   wt ts ss = true -> In n (vars ss) -> exists t, header_declares ts ss n = Some t /\ In (n, t) (positions ss).
 Proof.
-  intros Hwt Hin. unfold vars in Hin. apply in_flat_map in Hin as (s & Hi & Hs).
-  pose proof Hwt as Hwt'. unfold wt in Hwt'. apply andb_true_iff in Hwt' as [_ Hss]. rewrite forallb_forall in Hss.
-  destruct (sel_var_has_position ts s n (Hss s Hi) Hs) as [t Ht].
-  apply (every_used_variable_is_declared ts ss n t Hwt). unfold positions. apply in_flat_map. exists s. split; assumption.
+  intros Hwt Hin. unfold vars in Hin.
+  pose proof Hwt as Hwt'. unfold wt in Hwt'. apply andb_true_iff in Hwt' as [_ Hss].
+  assert (exists t, In (n, t) (positions ss)) as [t Ht].
+  { unfold positions. apply in_app_iff in Hin as [Hin|Hin].
+    - destruct (dirs_var_has_position _ n (wt_level_dirs ts ss Hss) Hin) as [t Ht]. exists t. apply in_app_iff. left. exact Ht.
+    - apply in_flat_map in Hin as (s & Hi & Hs). rewrite forallb_forall in Hss.
+      destruct (sel_var_has_position ts s n (Hss s Hi) Hs) as [t Ht]. exists t. apply in_app_iff. right.
+      apply in_flat_map. exists s. split; assumption. }
+  apply (every_used_variable_is_declared ts ss n t Hwt Ht).
 Qed.
 
 (* the hypothesis matters: a variable about which neither the schema nor the client's header says anything stays undeclared *)
 Example unknown_variable_is_not_declared :
   let ts := [("JSON", [])] in
-  let ss := [TField (Some [("data", ("JSON", "JSON"))]) [("data", TKids (Some "JSON") [("k", TVar "v" None None)])] []] in
+  let ss := [TField (Some [("data", ("JSON", "JSON"))]) [("data", TKids (Some "JSON") [("k", TVar "v" None None)])] [] []] in
   vars ss = ["v"] /\ header_declares ts ss "v" = None /\ wt ts ss = false.
 Proof. vm_compute. repeat split. Qed.
 
-(* non-vacuity: filter: [{q: $a, tags: [$b]}, {and: [{limit: $c}]}], a: $d, data: {k: [$e]} with data a custom scalar *)
+(* non-vacuity: f(filter: [{q: $a, tags: [$b]}, {and: [{limit: $c}]}], a: $d, data: {k: [$e]}) @skip(if: $f) { ... @include(if: $g) { x } } with data a custom scalar *)
 Definition ex_types : types :=
   [("In", [("q", "String"); ("limit", "Int"); ("tags", "[String!]"); ("and", "[In!]")]); ("String", []); ("Int", []); ("JSON", [])].
 Definition ex_sels : list tsel :=
@@ -262,9 +329,10 @@ Definition ex_sels : list tsel :=
          ("", TKids (Some "In") [("and", TKids (Some "In") [("", TKids (Some "In") [("limit", TVar "c" (Some "Int") (Some "Int!"))])])])]);
       ("a", TVar "d" (Some "Int") (Some "Int"));
       ("data", TKids (Some "JSON") [("k", TKids None [("", TVar "e" None (Some "Float"))])])]
-     [TInline [TField None [] []]]].
+     [(Some [("if", ("Boolean!", "Boolean"))], [("if", TVar "f" (Some "Boolean!") (Some "Boolean!"))])]
+     [TInline [(Some [("if", ("Boolean!", "Boolean"))], [("if", TVar "g" (Some "Boolean!") (Some "Boolean!"))])] [TField None [] [] []]]].
 Example ex_header :
   wt ex_types ex_sels = true /\
-  map (header_declares ex_types ex_sels) ["a"; "b"; "c"; "d"; "e"; "f"] =
-    [Some "String"; Some "String!"; Some "Int"; Some "Int"; Some "Float"; None].
+  map (header_declares ex_types ex_sels) ["a"; "b"; "c"; "d"; "e"; "f"; "g"] =
+    [Some "String"; Some "String!"; Some "Int"; Some "Int"; Some "Float"; Some "Boolean!"; Some "Boolean!"].
 Proof. vm_compute. split; reflexivity. Qed.
